@@ -117,6 +117,8 @@ def run(repo, tier):
     check_structure(rep, facts, rel, 'R12.5')
     from .. import labelrules as _LB
     _LB.check_live_env(rep, facts, 'R12.6.live-env')
-    rep.floor('criteria rules', 27)
+    from ..comprel import check_stable_decisions
+    check_stable_decisions(rep, rel, 'R12.7.stable-decision')
+    rep.floor('criteria rules', 20)
     rep.floor('constructor arguments classified', 40)
     return rep
